@@ -17,7 +17,7 @@ H = "h_tsafe"
 TSAN_EXTRA = ("-DTSAFE_TSAN", "-fsanitize=thread")
 TSAN_NAME = "h_tsafe_tsan"
 LL_NAME = "h_tsafe_ll"
-LL_SOURCES = ("heap_allocator.cpp", "malloc_allocator.cpp", "new_allocator.cpp", "virtual_memory.cpp")
+LL_SOURCES = ("heap_allocator.cpp", "malloc_allocator.cpp", "new_allocator.cpp", "virtual_memory.cpp", "error.cpp", "debugging.cpp")
 
 
 def _build_ll(cfg):
